@@ -105,7 +105,7 @@ theorem expandMod_congr (v1 v2 : Variant) (attr1 attr2 : Toks) (m : ModItemIn) (
     | ok r =>
       obtain ⟨fns, tg⟩ := r
       simp only []
-      cases detectDepMode .module fns with
+      cases detectDepMode .module (attachCfg (bodyFnAttrs items) fns) with
       | error e => rfl
       | ok d => simp only [genTraitDef_congr ho, genImplBlock_congr ho]
 
@@ -163,7 +163,7 @@ theorem expandImpl_congr (v1 v2 : Variant) (attr1 attr2 : Toks) (m : ImplItemIn)
     | ok r =>
       obtain ⟨fns, tg⟩ := r
       simp only []
-      cases detectDepMode .implBlock fns with
+      cases detectDepMode .implBlock (attachCfg (bodyFnAttrs items) fns) with
       | error e => rfl
       | ok d => simp only [genImplBlock_congr ho]
 
